@@ -504,6 +504,13 @@ class HashesProperty(DictionaryProperty):
                     "custom hash algorithm: " + hash_k,
                 )
 
+            if spec_name in spec_dict:
+                # two spellings of one algorithm: neither value may be
+                # dropped silently (which one would depend on their order)
+                raise ValueError(
+                    "more than one {0} hash".format(spec_name),
+                )
+
             spec_dict[spec_name] = hash_v
 
         return spec_dict, has_custom
